@@ -9,7 +9,7 @@
 (* submitted, i.e. to any source status of the submitting event.           *)
 (* "" = the object is not stored (yet).                                    *)
 (***************************************************************************)
-EXTENDS FiniteSets
+EXTENDS FiniteSets, Sequences, Naturals
 
 Cross(A, B) == {<<a, b>> : a \in A, b \in B}
 
@@ -80,4 +80,27 @@ LifecycleViol(kind, edges, prev, cur, ngov) ==
           o \in {x \in changed : ngov = 1 /\ <<prev[x], cur[x]>> \notin edges}}
      \cup {<<"C16_LoggedOutForever", [kind |-> kind, obj |-> o, from |-> prev[o], to |-> cur[o], why |-> "a logged-out object came back"]>> :
           o \in {x \in changed : prev[x] = "forbidden"}}
+
+\* History-aware half: a proposal that is rejected or withdrawn restores the status the object had when the proposal was
+\* submitted.  Followed only where it is unambiguous: the object went from a settled status to a transitional one in a
+\* block with a single governance step in which nothing else changed status, no object of any kind changed status since
+\* (cascades rewrite the remembered status: an audit admin whose node is logged out while its own logout is pending
+\* comes back frozen), and it now settles again: then it is either where the approval leads or where it was before.
+\* last : object -> that earlier status ("?" = not tracked); nchg = number of objects of all kinds that changed status
+Transit  == {"freezing", "activating", "logouting"}
+Settled  == {"available", "frozen", "forbidden"}
+ApproveTo(t) == CASE t = "freezing" -> "frozen" [] t = "activating" -> "available" [] OTHER -> "forbidden"
+LastOf(last, o) == IF o \in DOMAIN last THEN last[o] ELSE "?"
+NChanged(prev, cur) == Cardinality({o \in DOMAIN prev \cap DOMAIN cur : prev[o] # cur[o]}) + Cardinality(DOMAIN cur \ DOMAIN prev)
+NextLast(last, prev, cur, ngov, nchg) ==
+  [o \in DOMAIN cur |->
+     IF o \notin DOMAIN prev THEN "?"
+     ELSE IF prev[o] = cur[o] THEN (IF nchg = 0 THEN LastOf(last, o) ELSE "?")
+     ELSE IF ngov = 1 /\ nchg = 1 /\ prev[o] \in Settled /\ cur[o] \in Transit THEN prev[o]
+     ELSE "?"]
+ReturnViol(kind, last, prev, cur, ngov) ==
+  {<<"C16_Lifecycle", [kind |-> kind, obj |-> o, from |-> prev[o], to |-> cur[o],
+                       why |-> "a proposal that is not approved restores the earlier status, which was " \o LastOf(last, o)]>> :
+      o \in {x \in DOMAIN prev \cap DOMAIN cur : /\ ngov = 1 /\ prev[x] \in Transit /\ cur[x] \in Settled
+                                                 /\ LastOf(last, x) # "?" /\ cur[x] \notin {ApproveTo(prev[x]), LastOf(last, x)}}}
 =============================================================================
